@@ -1588,6 +1588,108 @@ class Interp:
             return Arr(d, alg.mk_fn('floor', P(a.poly * b.poly.pow(-1))), mk)
         return Unk('operator %s' % type(op).__name__, node)
 
+    def _concat_slices(self, parts, fname):
+        """np.concatenate / hstack / vstack of consecutive pieces x[a:b], x[b:c], ... of one array (fixed bounds, an axis of known length) along the
+        first axis: the piece x[a:c], which is x itself when the pieces cover the axis.  None when the parts are not of that form."""
+        if fname == 'hstack' and any(x.ndim != 1 for x in parts):
+            return None
+        if fname == 'vstack' and any(x.ndim < 2 for x in parts):
+            return None
+        base, lab, rest, spans = None, None, None, []
+        for x in parts:
+            if x.mask is not None:
+                return None
+            d0 = x.dims[0]
+            if d0 is not None and d0 in self.axis_len and base is not None and d0 == lab and x.poly.key() == base and tuple(x.dims[1:]) == rest:
+                spans.append((0, self.axis_len[d0]))            # the whole array as a part
+                continue
+            if not x.poly.is_monomial():
+                if base is None and d0 in self.axis_len:
+                    base, lab, rest = x.poly.key(), d0, tuple(x.dims[1:])
+                    spans.append((0, self.axis_len[d0]))
+                    continue
+                return None
+            (m_, c_), = x.poly.t.items()
+            a = m_[0][0] if len(m_) == 1 and m_[0][1] == 1 and c_ == 1 else None
+            if a is not None and a[0] == 'fn' and a[1] == 'slice' and len(a) == 7 and a[2] == ('L', d0) and a[3][0] == 'B' and a[3][1] in self.axis_len \
+                    and a[6] == ('C', None) and all(b == ('C', None) or (b[0] == 'P' and Poly.from_key(b[1]).is_const() and Poly.from_key(b[1]).const_value().denominator == 1) for b in a[4:6]):
+                lo, hi = [None if b == ('C', None) else int(Poly.from_key(b[1]).const_value()) for b in a[4:6]]
+                st_, en_, _ = slice(lo, hi).indices(self.axis_len[a[3][1]])
+                if base is None:
+                    base, lab, rest = a[3][2], a[3][1], tuple(x.dims[1:])
+                elif (a[3][2], a[3][1], tuple(x.dims[1:])) != (base, lab, rest):
+                    return None
+                if en_ > st_:
+                    spans.append((st_, en_))
+                continue
+            if base is None and d0 in self.axis_len:
+                base, lab, rest = x.poly.key(), d0, tuple(x.dims[1:])
+                spans.append((0, self.axis_len[d0]))
+                continue
+            return None
+        if base is None:
+            return None
+        if not spans:
+            spans = [(0, 0)]
+        for (a0, a1), (b0, b1) in zip(spans, spans[1:]):
+            if a1 != b0:
+                return None
+        st_, en_ = spans[0][0], spans[-1][1]
+        ref = parts[0]
+        whole = Arr((lab,) + rest, Poly.from_key(base), unit=ref.unit, dt=ref.dt)
+        if (st_, en_) == (0, self.axis_len[lab]):
+            return whole
+        newlab = '%s[%s:%s]' % (lab, '' if st_ == 0 else st_, en_)
+        self.axis_len[newlab] = en_ - st_
+        return Arr((newlab,) + rest, alg.array_fn('slice', lab, whole.poly, C(None) if st_ == 0 else P(num(st_)), P(num(en_)), C(None), out=newlab), unit=ref.unit, dt=ref.dt)
+
+    def _reshape_concrete(self, x, shape, node):
+        """x.reshape(shape) for a 1-D array of known length and concrete extents: out[i, j, ...] is x[((i * n1) + j) * n2 + ...] (row-major); the
+        extents have to multiply to len(x) (one of them may be -1), else numpy raises ValueError"""
+        if not (isinstance(x, Arr) and x.ndim == 1 and x.dims[0] is not None and x.mask is None):
+            return None
+        n = self.axis_len.get(x.dims[0])
+        sh = []
+        for v in shape:
+            a = self._as_arr(v) if not isinstance(v, int) else None
+            if isinstance(v, bool):
+                return None
+            if isinstance(v, int):
+                sh.append(v)
+            elif isinstance(a, Arr) and a.ndim == 0 and a.poly.is_const() and a.poly.const_value().denominator == 1:
+                sh.append(int(a.poly.const_value()))
+            else:
+                return None
+        if n is None or n > 64 or not sh or len(sh) > 3 or sum(1 for v in sh if v == -1) > 1 or any(v < -1 for v in sh):
+            return None
+        known = 1
+        for v in sh:
+            if v != -1:
+                known *= v
+        if -1 in sh:
+            if known == 0 or n % known:
+                raise PyRaise('ValueError', 'cannot reshape array of size %d into shape %r' % (n, tuple(sh)))
+            sh[sh.index(-1)] = n // known
+        elif known != n:
+            raise PyRaise('ValueError', 'cannot reshape array of size %d into shape %r' % (n, tuple(sh)))
+        if len(sh) == 1:
+            return x
+        elems = [alg.index_at(x.poly, x.dims[0], num(k)) for k in range(n)]
+        labs = []
+        for ext in sh:
+            self._n_lists = getattr(self, '_n_lists', 0) + 1
+            lab = 'pos#%d' % self._n_lists
+            self.axis_len[lab] = ext
+            labs.append(lab)
+        import itertools as _it
+        p = Poly()
+        for k, ix in enumerate(_it.product(*[range(ext) for ext in sh])):
+            t = elems[k]
+            for lab, i_ in zip(labs, ix):
+                t = t * alg.mk_ind('==0', alg.sym('idx:' + lab, lab) - num(i_))
+            p = p + t
+        return Arr(tuple(labs), p, unit=x.unit, dt=x.dt)
+
     def _list_to_arr(self, lst):
         vals = [self._as_arr(x) for x in lst]
         if len(vals) == 1 and isinstance(vals[0], Arr) and vals[0].ndim == 0:
@@ -2211,9 +2313,18 @@ class Interp:
     def libcall(self, name, args, kw, e, mod):
         last = name.split('.')[-1]
         root = name.split('.')[0]
+        if name == 'warnings.warn' or (root == 'logging' and last in ('debug', 'info', 'warning', 'warn', 'error', 'critical', 'exception', 'log')) \
+                or name.startswith('astropy.log.') or name.startswith('astropy.logger.log.'):
+            return None       # a diagnostic: no effect on any value, file or object the properties speak about
+        if name == 'logging.getLogger':
+            return Marker('logging.Logger')
         if root in ('numpy', 'np') and last == 'memmap' and 'shape' in kw:
             # a fresh zero-initialised buffer of the given shape (storage class is not modelled)
             return self.libcall('numpy.zeros', [kw['shape']], {}, e, mod)
+        if root in ('numpy', 'np') and last == 'fromfile' and args and isinstance(args[0], Foreign):
+            # the next values of a binary file, as a flat array (fewer than asked for, without an error, when the file ends first)
+            r_ = args[0].sl_method(self, 'raw_read_array', [kw.get('count', args[2] if len(args) > 2 else None)], {}, e)
+            return Unk('np.fromfile on %s' % type(args[0]).__name__, e) if r_ is NotImplemented else r_
         if any(isinstance(a, Unk) for a in args):
             return [a for a in args if isinstance(a, Unk)][0]
         if root in ('numpy', 'np'):
@@ -2536,6 +2647,11 @@ class Interp:
                 extra = [C('%s=%s' % (k, v)) for k, v in sorted(kw.items())]
                 self.axis_count['d'] = a[2].poly          # the axis has as many positions as logspace was asked for
                 return Arr(('d',), alg.mk_fn('logspace', L('d'), P(a[0].poly), P(a[1].poly), P(a[2].poly), *extra), unit=num(1), fresh=True)
+            if last in ('hstack', 'concatenate', 'vstack') and args and isinstance(args[0], (list, tuple)) and args[0] and not kw.get('axis') \
+                    and all(isinstance(x, Arr) and x.ndim >= 1 for x in args[0]):
+                r_ = self._concat_slices(list(args[0]), last)
+                if r_ is not None:
+                    return r_
             if last == 'hstack' or last == 'concatenate':
                 parts = args[0] if args and isinstance(args[0], (list, tuple)) else []
                 sel = [x for x in parts if isinstance(x, _SelIdx)]
@@ -3025,8 +3141,12 @@ class Interp:
                 return Arr((recv.dims[0],), alg.relabel(recv.poly, recv.dims[1], recv.dims[0]), unit=recv.unit)
             if name == 'diagonal':
                 return Unk('diagonal', e)
+            if name == 'tofile' and args and isinstance(args[0], Foreign):
+                r_ = args[0].sl_method(self, 'raw_write_array', [recv], {}, e)
+                return Unk('array written to %s' % type(args[0]).__name__, e) if r_ is NotImplemented else r_
             if name == 'reshape':
-                return Unk('reshape', e)
+                r_ = self._reshape_concrete(recv, list(args[0]) if len(args) == 1 and isinstance(args[0], (tuple, list)) else list(args), e)
+                return r_ if r_ is not None else Unk('reshape', e)
             if name == 'argsort':
                 return self.libcall('numpy.argsort', [recv], kw, e, mod)
             if name == 'argmin' or name == 'argmax':
